@@ -11,7 +11,7 @@ LEAN_TARGETS = ['TxV.Props.C06']
 PROP_MODULES = ['TxV.Props.C06']
 AUDIT = 'Audit/C06.lean'
 ANCHORS = ['txtorcon/socks.py']
-RULE = ('entry points: the SOCKS protocol factory (all cases), and for a third of the targets TorSocksEndpoint.connect, TorClientEndpoint.connect (SOCKS endpoint given) and txtorcon.socks.resolve / resolve_ptr; for a few targets the state machine driven without a protocol object (drained with send_data; the answer to the greeting delivered after the drain or from inside it). '
+RULE = ('entry points: the SOCKS protocol factory (all cases), and for a third of the targets TorSocksEndpoint.connect, TorClientEndpoint.connect (SOCKS endpoint given) and txtorcon.socks.resolve / resolve_ptr; for a few targets the state machine driven without a protocol object (drained with send_data; the answer to the greeting delivered after the drain or from inside it), and pairs of conversations to one host on two ports alive at once. '
         'targets: host names of length 1, 2, 63, 64, 254, 255, 256, 300 and random lengths over [a-z0-9.-], IDNA-looking and non-ASCII names, '
         'IPv4 boundary and random literals, IPv6 boundary and random literals; ports 0, 1, 255, 256, 65535 and random (quick) / all 65536 '
         'ports for six targets (thorough); request types CONNECT, RESOLVE, RESOLVE_PTR; plus, for three targets x three types, eight answers to the greeting other than method 0 selected (no request may follow). non-trivial = every case (each sends or refuses a '
@@ -77,6 +77,11 @@ def gen_cases(rng, tier):
             yield {'req': 'CONNECT', 'host': h, 'port': p, 'entry': 'socks-endpoint-tls'}
         yield {'req': 'RESOLVE', 'host': h, 'port': 0, 'entry': 'function'}
         yield {'req': 'RESOLVE_PTR', 'host': h, 'port': 0, 'entry': 'function'}
+    # two conversations to the same host on different ports, alive at the same time: each request carries its own port
+    for h in hosts[:10] + v4[:3] + v6[:3]:
+        p1, p2 = rng.sample(ports, 2)
+        yield {'req': 'CONNECT', 'host': h, 'port': p1, 'twin_port': p2}
+        yield {'req': 'CONNECT', 'host': h, 'port': p2, 'twin_port': p1, 'entry': 'socks-endpoint'}
     # the state machine driven without a protocol object (sans-IO: the owner of the wire drains it with send_data) — the answer to
     # the greeting arriving after the drain, or from inside it
     for h in hosts[:8] + v4[:3] + v6[:3]:
@@ -102,6 +107,13 @@ def run_impl(c):
         im = socksh.Impl(c['req'], c['host'], c['port'], entry=c.get('entry', 'factory'))
     except Exception as e:
         return ['ctor-raised ' + type(e).__name__]
+    if c.get('twin_port') is not None:
+        # a second conversation to the same host, on another port, is set up before this one has sent its request
+        try:
+            twin = socksh.Impl(c['req'], c['host'], c['twin_port'], entry=c.get('entry', 'factory'))
+            twin.do(['connect'])
+        except Exception:
+            pass
     if c.get('sync'):
         # the answer to the greeting arrives from inside the drain of the greeting (an in-memory wire)
         im.proto.sync = bytes.fromhex(c.get('sel', '0500'))
